@@ -27,6 +27,32 @@ EAGER_FLOOR = True
 DIV_ZERO = 'raise'     # 'raise': ZeroDivisionError on the zero branch (python scalars); 'poison': numpy array semantics
 
 
+CROSS_DIR = None        # directory for the sample of queries that is re-decided by other solvers (thorough tier)
+CROSS_EVERY = 97
+_CROSS_N = [0]
+
+
+def _cross_dump(solver, extra, verdict):
+    """deterministic sample (every CROSS_EVERY-th decided query of this process, at most 40) written as SMT-LIB2"""
+    import os
+    _CROSS_N[0] += 1
+    if _CROSS_N[0] % CROSS_EVERY != 0 or _CROSS_N[0] > 40 * CROSS_EVERY:
+        return
+    try:
+        s2 = z3.Solver()
+        for a in solver.assertions():
+            s2.add(a)
+        for e in extra:
+            s2.add(e)
+        txt = s2.to_smt2()
+        path = os.path.join(CROSS_DIR, 'q_%d_%d.smt2' % (os.getpid(), _CROSS_N[0]))
+        with open(path, 'w') as f:
+            f.write('; expected: %s\n' % verdict)
+            f.write(txt)
+    except Exception:
+        pass
+
+
 class Abort(BaseException):
     """path abandoned by the engine (infeasible, solver unknown, split too wide)"""
 
@@ -105,6 +131,8 @@ class Ctx:
         t = _now()
         r = str(self.solver.check(*extra))
         dt = _now() - t
+        if CROSS_DIR is not None and r in ('sat', 'unsat'):
+            _cross_dump(self.solver, extra, r)
         for s in (self.stats, GLOBAL):
             s.solver_s += dt
             s.queries += 1
